@@ -10,3 +10,4 @@ pub mod c12_sanitize;
 pub mod c20_skip_stacks;
 pub mod c15_thread_names;
 pub mod c16_mem_writer;
+pub mod c17_mem_reader;
